@@ -369,11 +369,18 @@ impl<D: DataMut> ReaderFrom for VecZnx<D> {
         }
         reader.read_exact(&mut buf[..len])?;
 
+        // The capacity is a property of the receiver's buffer, not of the stream: never
+        // advertise more limbs than the buffer holds (set_size only checks against max_size).
+        let capacity: usize = match limb_len {
+            Some(l) if l != 0 => self.data.as_ref().len() / l,
+            _ => new_size,
+        };
+
         // Only commit metadata after successful read.
         self.n = new_n;
         self.cols = new_cols;
         self.size = new_size;
-        self.max_size = new_max_size;
+        self.max_size = new_max_size.min(capacity).max(new_size);
         Ok(())
     }
 }
